@@ -9,10 +9,11 @@ import (
 // evalVShow handles v-show="condition" directive.
 // Sets display:none style when condition is falsey, removes it when truthy.
 func (v *Vue) evalVShow(ctx VueContext, n *html.Node) error {
-	vShowExpr := helpers.GetAttr(n, "v-show")
-	if vShowExpr == "" {
+	if !helpers.HasAttr(n, "v-show") {
 		return nil
 	}
+	// (an empty condition has no value: it is falsy, as it is in v-if)
+	vShowExpr := helpers.GetAttr(n, "v-show")
 
 	// The condition means what it means in v-if: one evaluation for both, with the same
 	// fallbacks (a path the evaluator cannot read, the negation of an undefined value)
